@@ -1047,6 +1047,9 @@ func localAccumulator(v ssa.Value) bool {
 				_ = al
 				return true // slice of a fresh local array (slice literal)
 			}
+			if capLimited(x) {
+				return true // s[:len(s):len(s)]: no spare capacity, the first append onto it moves to an array of its own
+			}
 			return ok(x.X)
 		case *ssa.UnOp:
 			if al, isAl := x.X.(*ssa.Alloc); isAl && x.Op == token.MUL {
@@ -1351,16 +1354,31 @@ func runHash(c *Ctx) {
 						if mi, ok := v.(*ssa.MakeInterface); ok {
 							v = mi.X
 						}
-						if lv := flattenConcat(v); len(lv) > 1 {
+						skel := func(x ssa.Value) string {
 							sk := ""
-							for _, leaf := range lv {
+							for _, leaf := range flattenConcat(x) {
 								if s, ok := core.ConstString(leaf); ok {
 									sk += s
 								} else {
 									sk += "%s"
 								}
 							}
-							fm[kind] = sk
+							return sk
+						}
+						if lv := flattenConcat(v); len(lv) > 1 {
+							fm[kind] = skel(v)
+						}
+						// strings.Join([]string{a, b, c}, sep): the elements' skeletons separated by the constant separator
+						if jc, ok := v.(*ssa.Call); ok && core.CalleeName(jc.Common()) == "strings.Join" {
+							if sep, isK := core.ConstString(jc.Common().Args[1]); isK {
+								var parts []string
+								for _, e := range sliceElems(jc.Common().Args[0], 0, map[ssa.Value]bool{}) {
+									parts = append(parts, skel(e))
+								}
+								if len(parts) > 1 {
+									fm[kind] = strings.Join(parts, sep)
+								}
+							}
 						}
 					}
 				}
